@@ -264,6 +264,11 @@ func runRefactorings(id, repo, root string) map[string]any {
 				r.status = "skipped: transformed tree does not type-check"
 				return
 			}
+			if strings.Contains(raw, "\npanic:") || strings.HasPrefix(raw, "panic:") || strings.Contains(raw, "goroutine 1 [") {
+				r.status = "false-alarm"
+				r.alarms = []string{"the checker crashed on the transformed tree: " + firstLine(raw)}
+				return
+			}
 			for k, l := range reps {
 				if _, ok := baseline[k]; !ok {
 					r.alarms = append(r.alarms, l)
